@@ -529,7 +529,9 @@ def mode_pair_histories(tier):
             for m1 in MODES:
                 for m2 in MODES:
                     if tier == "quick" and target != "table" and how == "self" and not (m1 is None or m2 == "overwrite"):
-                        continue     # the writer's mode never reaches a path write: one row/column of the table suffices
+                        continue     # one row/column of the 6x6 table for .mode() on paths (all 36 for the keyword form)
+                    if tier == "quick" and target in ("csv", "json") and m1 not in (None, "overwrite", "ignore"):
+                        continue     # _write is shared by the formats: the full 6x6 table runs on parquet (and on tables)
                     h = [w(target, m1, how, d1), r(target), w(target, m2, how, d2), r(target)]
                     if target == "table":
                         h += [["exists", "t"], ["list"], ["cols", "t"], ["get", "t"]]
